@@ -162,8 +162,10 @@ Next ==
              /\ UNCHANGED << sc, cfg, ms, div >>
         [] e.e = "lookup" ->
              /\ LET new == LookupTags(e, conns[e.c].addr) IN o' = [o EXCEPT !.bad = @ \cup new] /\ Report(new \ o.bad, e)
-             \* the scope the real server bound the connection to is the oracle's (or refused)
-             /\ conns' = [conns EXCEPT ![e.c].k = IF e.ok THEN @ ELSE 0]
+             \* from here on the connection is judged against the configuration whose key the server really uses
+             \* (in the unambiguous case that is the oracle's, or the lookup above is already a violation)
+             /\ LET ks == { k \in 1..Len(cfg.secrets) : cfg.secrets[k].key = e.key } IN
+                conns' = [conns EXCEPT ![e.c].k = IF e.ok /\ ks # {} THEN CHOOSE k \in ks : \A j \in ks : k <= j ELSE 0]
              /\ UNCHANGED << sc, cfg, ms, div >>
         [] e.e = "feed" ->
              /\ LET h == DecHeader(e.h).v  key == << e.c, h.sid >> IN
@@ -181,7 +183,10 @@ Next ==
              /\ o' = [o EXCEPT !.sinks = Append(@, [ok |-> e.ok, dec |-> e.dec])]
              /\ UNCHANGED << sc, cfg, conns, ms, div >>
         [] e.e = "wr" ->
-             /\ LET on == ObsWr(e) IN o' = on /\ Report(on.bad \ o.bad, e)
+             /\ LET on0 == ObsWr(e)
+                    on == IF Admit(cfg, conns[e.c].addr) = 0
+                          THEN [on0 EXCEPT !.bad = @ \cup {"C13"}] ELSE on0     \* bytes written on a connection that must be refused
+                IN o' = on /\ Report(on.bad \ o.bad, e)
              /\ IF div \/ ~o.pend \/ o.inv = 0 \/ ScopeIdx(o.req.c) = 0
                 THEN UNCHANGED << ms, div >>
                 ELSE IF Len(e.b) >= 12 /\ ModelWrOK(e)
